@@ -190,5 +190,17 @@ func (m *mon) aliasing(j jid.JID, input string) {
 			return
 		}
 	}
+	// Equal among everything that was obtained, including values Equal by
+	// construction: a copy, a second parse of the input and of its upper-case form
+	m.hold(j.Copy(), "Copy of the base", 0)
+	if p, err := jid.Parse(input); err == nil {
+		m.hold(p, "a second Parse of the input", 0)
+	}
+	if p, err := jid.Parse(strings.ToUpper(j.String())); err == nil {
+		m.hold(p, "Parse of the upper-cased string", 0)
+	}
+	if !m.pairwise() {
+		return
+	}
 	c.Count("alias_sequences", 1)
 }
